@@ -22,6 +22,10 @@ static size_t mgr_sz;
 static int g_v;
 static char g_name[96];
 static long long n_scans, n_calls, n_hits;
+static int g_pdiag; /* C13_DIAGP=<unit>:<variant>: run that cell of the pattern pass alone and print the address of each stack hit */
+void diag_ready(volatile void *p);
+void diag_done(void);
+static int g_lenset; /* which of the four length cycles mk() uses (quick: 0-1, thorough: 0-3) */
 
 static uint64_t
 pcall(void *fn, uint64_t a0, uint64_t a1, uint64_t a2, uint64_t a3, uint64_t a4, uint64_t a5)
@@ -111,8 +115,14 @@ scan(const char *sched)
                 long o;
                 if ((o = find_secret(dump, sizeof dump, S[s].magic)) >= 0)
                         viol(o < 128 ? "gp-registers" : o < 2176 ? "vector-registers" : "mask-registers", S[s].what, o, sched, dump[o]);
-                if ((o = find_secret(stk, STK_SIZE, S[s].magic)) >= 0)
+                if ((o = find_secret(stk, STK_SIZE, S[s].magic)) >= 0) {
                         viol("stack", S[s].what, STK_SIZE - o, sched, stk[o]);
+                        if (g_pdiag) { /* C13_DIAGP: tools/c13diag.sh -p watches this address in a second run */
+                                printf("DIAGP %s: %s on stack %ld below top, addr %p (%s)\n", g_name, S[s].what, (long) STK_SIZE - o, (void *) (stk + o), sched);
+                                fflush(stdout);
+                                diag_done();
+                        }
+                }
                 if ((o = find_secret((const uint8_t *) m, mgr_sz, S[s].magic)) >= 0)
                         viol("manager", S[s].what, o, sched, ((const uint8_t *) m)[o]);
         }
@@ -157,7 +167,8 @@ pattern_msg(uint8_t *p, size_t n, uint32_t *idx)
 static void
 mk(item_t *it, int i, int lc)
 {
-        static const uint32_t WANT[4] = { 64, 17, 96, 304 };
+        static const uint32_t WANTS[4][4] = { { 64, 17, 96, 304 }, { 1, 130, 255, 399 }, { 16, 33, 200, 385 }, { 47, 128, 256, 368 } };
+        const uint32_t *WANT = WANTS[g_lenset];
         wb_t *b = &WB[i];
         memset(it, 0, sizeof *it);
         it->alg = U->a ? U->a : U->h;
@@ -229,6 +240,7 @@ run_unit_variant(long item, void *arg)
         WB = calloc(NJ, sizeof *WB);
         char sched[96];
         /* decrypt of a plaintext-producing job writes plaintext to dst (caller buffer) - dst is not scanned */
+        for (g_lenset = 0; g_lenset < (tier_thorough() ? 4 : 2); g_lenset++)
         for (int n = 1; n <= 17; n++) {
                 memset(stk, 0xA5, STK_SIZE);
                 snprintf(sched, sizeof sched, "submit %d jobs (lengths cycling 4 values), flush all", n);
@@ -269,7 +281,7 @@ run_unit_variant(long item, void *arg)
                         } else if (n == 2 && i == 0 && find_secret((const uint8_t *) m, mgr_sz, KEY_MAGIC) >= 0)
                                 stat_add("control_key_visible_in_manager_while_job_parked", 1); /* vacuity guard */
                 }
-                snprintf(sched, sizeof sched, "submit %d jobs (lengths cycling 4 values), flush all", n);
+                snprintf(sched, sizeof sched, "submit %d jobs (length cycle %d), flush all", n, g_lenset);
                 while (pcall((void *) m->flush_job, (uint64_t) m, 0, 0, 0, 0, 0))
                         done++;
                 if (pcall((void *) m->queue_size, (uint64_t) m, 0, 0, 0, 0, 0) == 0)
@@ -417,13 +429,59 @@ patn(void *p, size_t n, uint32_t magic, uint32_t *idx)
                 b[i + 3] = (uint8_t) magic;
         }
 }
+/* direct API, differential runs (see run_diff_variant): g_dmode 0 = pattern scan, 1..3 = runs R0 (keys A, messages 0),
+ * R1 (keys B, messages 0), R2 (keys A, messages 1); every call's register dump and the used top of the private stack are kept */
+#define DSTK (48 * 1024)
+#define DMAXC 1200
+static int g_dmode, g_dcalls, g_ddiag_call = -1;
+static uint8_t *g_ddiag_addr;
+void diag_ready(volatile void *p);
+void diag_done(void);
+static uint8_t *DS[3][DMAXC], *DOUT[DMAXC];
+static size_t DOUTSZ[DMAXC];
+static char DNAME[DMAXC][40];
+static void
+dsnap(const char *nm, const void *o1, size_t n1, const void *o2, size_t n2)
+{
+        if (g_dcalls >= DMAXC)
+                DIE("DMAXC too small");
+        for (size_t i = 0; i < STK_SIZE - DSTK; i += 8)
+                if (*(const uint64_t *) (stk + i) != 0xA5A5A5A5A5A5A5A5ull)
+                        DIE("direct call used more than DSTK bytes of stack: %s", nm);
+        uint8_t *b = malloc(TDUMP_SIZE + DSTK);
+        memcpy(b, dump, TDUMP_SIZE);
+        memcpy(b + TDUMP_SIZE, stk + STK_SIZE - DSTK, DSTK);
+        DS[g_dmode - 1][g_dcalls] = b;
+        if (g_dmode == 1) {
+                snprintf(DNAME[g_dcalls], sizeof DNAME[0], "%s", nm);
+                DOUT[g_dcalls] = malloc(n1 + n2);
+                memcpy(DOUT[g_dcalls], o1, n1);
+                memcpy(DOUT[g_dcalls] + n1, o2, n2);
+                DOUTSZ[g_dcalls] = n1 + n2;
+        } else if (strcmp(DNAME[g_dcalls], nm))
+                DIE("direct call sequence differs between differential runs");
+        g_dcalls++;
+}
 #define DA(x) ((uint64_t) (uintptr_t) (x))
 #define DCALL(nm, f, ...)                                                                          \
         do {                                                                                       \
                 snprintf(g_name, sizeof g_name, "direct:%s", nm);                                  \
                 memset(stk, 0xA5, STK_SIZE);                                                       \
+                if (g_dmode == 4 && g_dcalls == g_ddiag_call)                                      \
+                        diag_ready(g_ddiag_addr);                                                  \
                 pcalln((void *) (f), (int) (sizeof((uint64_t[]){ __VA_ARGS__ }) / 8), (uint64_t[]){ __VA_ARGS__ }); \
                 n_scans++;                                                                         \
+                if (g_dmode == 4) {                                                                \
+                        if (g_dcalls++ == g_ddiag_call) {                                          \
+                                diag_done();                                                       \
+                                exit(0);                                                           \
+                        }                                                                          \
+                        break;                                                                     \
+                }                                                                                  \
+                if (g_dmode) {                                                                     \
+                        dsnap(nm, out, sizeof out, tag, sizeof tag);                               \
+                        break;                                                                     \
+                }                                                                                  \
                 long o_;                                                                           \
                 if ((o_ = find_secret(dump, sizeof dump, KEY_MAGIC)) >= 0)                         \
                         viol(o_ < 128 ? "gp-registers" : o_ < 2176 ? "vector-registers" : "mask-registers", "key-material", o_, "single direct call", dump[o_]); \
@@ -435,12 +493,8 @@ patn(void *p, size_t n, uint32_t magic, uint32_t *idx)
                         viol("stack", "plaintext", STK_SIZE - o_, "single direct call", stk[o_]);  \
         } while (0)
 static void
-run_direct(long item, void *arg)
+direct_body(void)
 {
-        (void) arg;
-        g_v = (int) item;
-        if (!variant_usable(g_v))
-                return;
         m = mgr_new(g_v);
         mgr_sz = imb_get_mb_mgr_size();
         static uint8_t pk[8][2048] __attribute__((aligned(64))); /* patterned key objects */
@@ -450,10 +504,24 @@ run_direct(long item, void *arg)
         static struct chacha20_poly1305_context_data cctx;
         uint32_t idx = 0;
         for (int k = 0; k < 8; k++)
-                patn(pk[k], sizeof pk[k], KEY_MAGIC, &idx);
+                if (g_dmode)
+                        fill_rand(pk[k], sizeof pk[k], (g_dmode == 2 ? 9100 : 9000) + (uint64_t) k);
+                else
+                        patn(pk[k], sizeof pk[k], KEY_MAGIC, &idx);
         idx = 0;
+        memset(out, 0, sizeof out);
+        memset(tag, 0, sizeof tag);
+        memset(&gctx, 0, sizeof gctx);
+        memset(&cctx, 0, sizeof cctx);
         for (int k = 0; k < 16; k++) {
-                patn(pm[k], sizeof pm[k], MSG_MAGIC, &idx);
+                if (g_dmode) {
+                        fill_rand(pm[k], sizeof pm[k], 9200 + (uint64_t) k);
+                        if (g_dmode == 3) /* bytewise complement: every message byte differs between R0 and R2 */
+                                for (size_t q = 0; q < sizeof pm[k]; q++)
+                                        pm[k][q] = (uint8_t) ~pm[k][q];
+                }
+                else
+                        patn(pm[k], sizeof pm[k], MSG_MAGIC, &idx);
                 fill_rand(iv[k], 16, 40 + (uint64_t) k);
                 fill_rand(aad[k], 16, 60 + (uint64_t) k);
         }
@@ -550,9 +618,75 @@ run_direct(long item, void *arg)
         }
         stat_add("evaluations", n_scans);
         stat_add("distinct_nontrivial", n_scans);
-        stat_add("direct_calls", n_scans);
+        stat_add(g_dmode ? "direct_calls_differential_runs" : "direct_calls", n_scans);
         n_scans = n_calls = n_hits = 0;
         free_mb_mgr(m);
+}
+static void
+run_direct(long item, void *arg)
+{
+        (void) arg;
+        g_v = (int) item;
+        if (!variant_usable(g_v))
+                return;
+        g_dmode = 0;
+        direct_body();
+        int nc = 0;
+        for (g_dmode = 1; g_dmode <= 3; g_dmode++) {
+                g_dcalls = 0;
+                direct_body();
+                if (g_dmode > 1 && g_dcalls != nc)
+                        DIE("direct call count differs between differential runs");
+                nc = g_dcalls;
+        }
+        g_dmode = 0;
+        for (int c = 0; c < nc; c++) {
+                static const char *W[2] = { "registers", "stack" };
+                const size_t lo[3] = { 0, TDUMP_SIZE, TDUMP_SIZE + DSTK };
+                for (int w = 0; w < 2; w++) {
+                        long cnt = 0, first = -1;
+                        for (size_t o = lo[w]; o + 4 <= lo[w + 1]; o += 4)
+                                if (memcmp(DS[0][c] + o, DS[1][c] + o, 4) && !memcmp(DS[0][c] + o, DS[2][c] + o, 4) &&
+                                    !memmem(DOUT[c], DOUTSZ[c], DS[0][c] + o, 4)) { /* not (a copy of) what the call returned to its caller */
+                                        cnt += 4;
+                                        if (first < 0)
+                                                first = (long) (o - lo[w]);
+                                }
+                        if (cnt >= 8) {
+                                snprintf(g_name, sizeof g_name, "direct:%s", DNAME[c]);
+                                char sig[220];
+                                snprintf(sig, sizeof sig, "C13|ddiff|%s|%s|%s", W[w], g_name, VARIANTS[g_v].name);
+                                if (c == g_ddiag_call && w == 1) {
+                                        g_ddiag_addr = stk + STK_SIZE - DSTK + first;
+                                        printf("DIAG %s call %d: first key-derived stack word %ld below top, %ld bytes: ", g_name, c, (long) DSTK - first, cnt);
+                                        for (int q = 0; q < 32; q++)
+                                                printf("%02x", DS[0][c][lo[1] + (size_t) first + (size_t) q]);
+                                        printf("\n");
+                                        fflush(stdout);
+                                        g_dmode = 4;
+                                        g_dcalls = 0;
+                                        direct_body();
+                                }
+                                if (!rec_sig_ok(sig, 2))
+                                        continue;
+                                rec_begin("viol");
+                                rec_s("site", "residue");
+                                rec_s("where", W[w]);
+                                rec_s("secret", "key-derived-state");
+                                rec_s("alg", g_name);
+                                rec_s("variant", VARIANTS[g_v].name);
+                                rec_s("schedule", "single direct call; three-run differential");
+                                rec_i("offset", w ? (long) DSTK - first : first);
+                                rec_i("key_derived_bytes", cnt);
+                                rec_i("call_index", c);
+                                rec_end();
+                        }
+                }
+                for (int r = 0; r < 3; r++)
+                        free(DS[r][c]);
+                free(DOUT[c]);
+        }
+        stat_add("direct_call_differential_triples", nc);
 }
 /* ---------------- derived key material: three-run differential (key A / key B / key A with other messages) ----------------
  * Keys, sub-keys and schedules are caught by the pattern scan above; state DERIVED from them (stream-cipher LFSR/FSM
@@ -570,7 +704,10 @@ static void
 inputs_diff(int i)
 {
         wb_t *b = &WB[i];
-        fill_rand(b->src, sizeof b->src, 100 + (uint64_t) i + (uint64_t) g_msgseed);
+        fill_rand(b->src, sizeof b->src, 100 + (uint64_t) i);
+        if (g_msgseed) /* "messages 1" = bytewise complement of "messages 0": every byte of every message differs */
+                for (size_t q = 0; q < sizeof b->src; q++)
+                        b->src[q] = (uint8_t) ~b->src[q];
         if (ALGS[U->a ? U->a : U->h].family == F_PON) {
                 b->src[0] = 0;
                 b->src[1] = 0;
@@ -656,6 +793,7 @@ run_diff_variant(long item, void *arg)
         for (int r = 0; r < 3; r++)
                 S[r] = malloc(SNAP);
         char sched[96];
+        for (g_lenset = 0; g_lenset < (tier_thorough() ? 4 : 2); g_lenset++)
         for (int n = g_diag_n ? g_diag_n : 1; n <= (g_diag_n ? g_diag_n : 17); n++) {
                 int ok = 1;
                 for (int r = 0; r < 3; r++) {
@@ -675,7 +813,7 @@ run_diff_variant(long item, void *arg)
                 n_scans++;
                 if (!ok)
                         continue; /* completion itself is C05's business */
-                snprintf(sched, sizeof sched, "submit %d jobs (lengths cycling 4 values), flush all; three-run differential", n);
+                snprintf(sched, sizeof sched, "submit %d jobs (length cycle %d), flush all; three-run differential", n, g_lenset);
                 static const struct {
                         const char *where;
                 } W[3] = { { "manager" }, { "registers" }, { "stack" } };
@@ -692,8 +830,11 @@ run_diff_variant(long item, void *arg)
                                 uint8_t *p = w == 0 ? (uint8_t *) m + first : w == 2 ? stk + first : dump + first;
                                 printf("DIAG %s first key-derived word at %s offset %ld (stack: %ld below top) addr %p bytes %ld: ", g_name, W[w].where, first,
                                        (long) STK_SIZE - first, (void *) p, cnt);
-                                for (int q = 0; q < 32; q++)
-                                        printf("%02x", S[0][lo[w] + (size_t) first + (size_t) q]);
+                                for (int r = 0; r < 3; r++) {
+                                        printf("\n  R%d @-32: ", r);
+                                        for (int q = -32; q < 64; q++)
+                                                printf("%02x%s", S[r][lo[w] + (size_t) (first + q)], (q & 3) == 3 ? " " : "");
+                                }
                                 printf("\n");
                                 fflush(stdout);
                                 KS[0] = keyset_new_at(m, 20, KMEM[0]);
@@ -790,8 +931,27 @@ main(void)
                 u->dir = CH[c].dir;
                 snprintf(u->name, sizeof u->name, "%s+%s/%s", CH[c].c, CH[c].h, u->dir ? "enc" : "dec");
         }
+        if (getenv("C13_DIAGP")) {
+                char un[96], vn[32];
+                if (sscanf(getenv("C13_DIAGP"), "%95[^:]:%31s", un, vn) != 2)
+                        DIE("C13_DIAGP=<unit>:<variant>");
+                g_pdiag = 1;
+                for (int u = 0; u < NUNITS; u++)
+                        for (int v = 0; v < NVARIANTS; v++)
+                                if (!strcmp(UNITS[u].name, un) && !strcmp(VARIANTS[v].name, vn))
+                                        run_unit_variant((long) u * NVARIANTS + v, NULL);
+                return 0;
+        }
         if (diag) {
                 char un[96], vn[32], wn[32];
+                if (!strncmp(diag, "direct:", 7)) { /* C13_DIAG=direct:<variant>:<call_index> */
+                        if (sscanf(diag + 7, "%31[^:]:%d", vn, &g_ddiag_call) != 2)
+                                DIE("C13_DIAG=direct:<variant>:<call_index>");
+                        for (int v = 0; v < NVARIANTS; v++)
+                                if (!strcmp(VARIANTS[v].name, vn))
+                                        run_direct(v, NULL);
+                        return 0;
+                }
                 if (sscanf(diag, "%95[^:]:%31[^:]:%d:%31s", un, vn, &g_diag_n, wn) != 4)
                         DIE("C13_DIAG=<unit>:<variant>:<n>:<manager|registers|stack>");
                 g_diag_w = !strcmp(wn, "manager") ? 0 : !strcmp(wn, "registers") ? 1 : 2;
